@@ -303,7 +303,9 @@ class Executor:
         ev["src"] = op
         self.events.append(ev)
         post = ev["post"]
-        if post["hash"] != "none" and post["res"] == "cur":
+        # (whenever a hash is exposed it has to identify the settings that
+        # are stored next to it -- also when the results turn out stale)
+        if post["hash"] != "none":
             self.hashobs.setdefault(
                 (self.eff_tuple(post), post["hash"]),
                 dict({k: post[k] for k in ("xy", "pipe_fp", "sett", "rx_hi",
